@@ -2411,6 +2411,9 @@ func (p *Parser) gotStmtPipe(s *Stmt, binCmd bool) *Stmt {
 func (p *Parser) subshell(s *Stmt) {
 	sub := &Subshell{Lparen: p.pos}
 	old := p.preNested(subCmd)
+	// Unlike a command substitution, a subshell is not a nested input:
+	// a pending here-document starts after the next newline inside it.
+	p.buriedHdocs = old.buriedHdocs
 	p.next()
 	sub.Stmts, sub.Last = p.followStmts("(", sub.Lparen)
 	p.postNested(old)
